@@ -55,6 +55,8 @@ def module_ast(filename):
                     q = prefix + ch.name
                     index.setdefault(q, ch)
                     index.setdefault((q, ch.lineno), ch)
+                    # a decorated function's code object starts at its first decorator line
+                    index.setdefault((q, min([ch.lineno] + [d.lineno for d in ch.decorator_list])), ch)
                     walk(ch, q + ".<locals>.")
                 elif isinstance(ch, ast.ClassDef):
                     walk(ch, prefix + ch.name + ".")
